@@ -279,14 +279,9 @@ class Eyring(Expr):
     parameter_keys = ("temperature",)
 
     def args_dimensionality(self, reaction):
-        order = reaction.order()
+        # the concentration dependence of the rate constant is carried by conc0 ** (1 - order)
         return (
-            {
-                "time": -1,
-                "temperature": -1,
-                "amount": 1 - order,
-                "length": 3 * (order - 1),
-            },
+            {"time": -1, "temperature": -1},
             {"temperature": 1},
             concentration,
         )
